@@ -11,6 +11,8 @@ pub mod c06;
 pub mod c07;
 pub mod c08;
 pub mod c09;
+pub mod c10;
+pub mod c11;
 pub mod c12;
 pub mod c13;
 pub mod c14;
@@ -29,6 +31,8 @@ pub fn all() -> Vec<Box<dyn Property>> {
         Box::new(c07::prop()),
         Box::new(c08::prop()),
         Box::new(c09::prop()),
+        Box::new(c10::prop()),
+        Box::new(c11::prop()),
         Box::new(c12::prop()),
         Box::new(c13::prop()),
         Box::new(c14::prop()),
@@ -43,6 +47,7 @@ pub fn all() -> Vec<Box<dyn Property>> {
 pub fn extra_command(name: &str, args: &[String]) -> Option<i32> {
     match name {
         "c07-worker" => Some(c07::worker_main(args)),
+        "serve" => Some(c10::serve_main(args)),
         _ => None,
     }
 }
